@@ -524,6 +524,9 @@ class Monitor:
         lb = mode != "each"
         if op[0] in ("unsched", "rm") and self.steal_open == int(op[1]):
             self.steal_open = None          # the answer arrived / the victim is gone: the request is settled
+        if op[0] == "pend" and before["col"] is not None and unesc(op[1]) in before["col"]:
+            # counted before the wire is examined: this very call may dispatch the re-queued copies together
+            self.requeued[before["col"].index(unesc(op[1]))] += 1
         # ---- wire (C16)
         for o in outs:
             f = o.split(":")
@@ -599,7 +602,6 @@ class Monitor:
             if t in before["col"]:
                 self.had_requeue = True
                 idx0 = before["col"].index(t)
-                self.requeued[idx0] += 1
                 # C15: the re-queued test goes ahead of the other unassigned tests
                 runs = [o for o in outs if o.startswith("run:")]
                 if idx0 in after["pool"]:
